@@ -148,10 +148,10 @@ func (o *Obligation) Solve(opts SolveOpts) {
 		quick = 3
 	}
 	var results []solverResult
-	if !opts.All {
+	if !opts.All || o.Canary {
 		r := runSolver(context.Background(), Solvers[0], fileFor(Solvers[0]), quick, opts.Seed)
 		results = append(results, r)
-		if r.status == "unsat" || r.status == "sat" {
+		if r.status == "unsat" || r.status == "sat" || o.Canary {
 			o.finish(results, start, opts)
 			return
 		}
